@@ -98,6 +98,17 @@ def setup_workdir(d, case):
             with open(os.path.join(idir, name), "wb") as f:
                 f.write(data)
             content[(im["id"], name)] = data
+        for sub, names in (im.get("subdirs") or {}).items():
+            # part of the image's files live in a sub-directory (not what the pipeline itself writes: such an image may be
+            # refused, but whatever reaches the store is judged like everything else)
+            os.makedirs(os.path.join(idir, sub))
+            orders[os.path.abspath(os.path.join(idir, sub))] = [f[0] for f in names]
+            orders[os.path.abspath(idir)].insert(im.get("subdir_at", 0) % (len(im["files"]) + 1), sub)
+            for name, size in names:
+                data = file_bytes(sub + "/" + name, size, im["id"])
+                with open(os.path.join(idir, sub, name), "wb") as f:
+                    f.write(data)
+                content[(im["id"], sub + "/" + name)] = data
     return work, store, orders, content
 
 
@@ -115,6 +126,14 @@ def fault_points(case):
                 pts.append([im["id"], "store-rename-after", n])
             # the source file cannot be opened when its turn comes (it is listed, then gone for the duration of the run)
             pts.append([im["id"], "source-missing", n])
+            # the store's file system refuses to grow a file beyond half of this item's size while the item is being
+            # transferred (a real EFBIG from the kernel, however the store copies the data)
+            if dict((f[0], f[1]) for f in im["files"]).get(n, 0) >= 2:
+                pts.append([im["id"], "fsize", n])
+        for sub, subnames in (im.get("subdirs") or {}).items():
+            for n, _size in subnames:
+                for kind in ("before", "mid", "after"):
+                    pts.append([im["id"], kind, n])
         pts.append([im["id"], "before-rename", None])
         pts.append([im["id"], "after-rename", None])
     return pts
@@ -129,7 +148,7 @@ def nonatomic_put_item(self, *path, source=None):
         shutil.copyfileobj(source, f)
 
 
-def run_publish(work, orders, fault, mode, calls_log, store_kind="local"):
+def run_publish(work, orders, fault, mode, calls_log, store_kind="local", may_refuse=False):
     """run PipelineManager.publish with `fault` = [image, kind, name] or None.
     mode: 'fail' (raise OSError in-process) or 'crash' (fork + os._exit).
     Returns 'ok' | 'failed' | 'crashed'."""
@@ -163,6 +182,24 @@ def run_publish(work, orders, fault, mode, calls_log, store_kind="local"):
                 action()
             if hit and fault[1] == "mid":
                 source = FaultingSource(source, action)
+            fs = fault is not None and fault[0] == uid and fault[2] == name and fault[1] == "fsize" and not fired
+            if fs:
+                import resource
+                import signal
+
+                fired.append(1)
+                fault_seen.append(1)
+                soft, hard = resource.getrlimit(resource.RLIMIT_FSIZE)
+                old_handler = signal.signal(signal.SIGXFSZ, signal.SIG_IGN)
+                try:
+                    size = os.fstat(source.fileno()).st_size
+                    resource.setrlimit(resource.RLIMIT_FSIZE, (max(1, size // 2), hard))
+                    try:
+                        return orig_put(self, *path, source=source)
+                    finally:
+                        resource.setrlimit(resource.RLIMIT_FSIZE, (soft, hard))
+                finally:
+                    signal.signal(signal.SIGXFSZ, old_handler)
             r = orig_put(self, *path, source=source)
             if hit and fault[1] == "after":
                 action()
@@ -221,7 +258,7 @@ def run_publish(work, orders, fault, mode, calls_log, store_kind="local"):
             for src, dst in hidden:
                 real_rename(dst, src)  # the file is back for the next run
 
-    if mode == "crash" and fault is not None and fault[1] != "source-missing":
+    if mode == "crash" and fault is not None and fault[1] not in ("source-missing", "fsize"):
         pid = os.fork()
         if pid == 0:
             try:
@@ -235,6 +272,8 @@ def run_publish(work, orders, fault, mode, calls_log, store_kind="local"):
             return "crashed"
         if code == 0:
             return "ok"
+        if code == 99 and may_refuse:
+            return "failed"
         raise HarnessError(f"publish child ended with unexpected status {code}")
 
     def raise_fault():
@@ -245,7 +284,7 @@ def run_publish(work, orders, fault, mode, calls_log, store_kind="local"):
     except Exception:
         # once the injected fault has taken effect, publish may fail in whatever way it likes (the statement says what the
         # store must look like afterwards, not how the failure is reported)
-        if fault_seen:
+        if fault_seen or may_refuse:
             return "failed"
         raise
     return "ok"
@@ -256,7 +295,8 @@ def store_state(store, content, case):
     st_ = {}
     for im in case["images"]:
         s = {}
-        for name, _size in im["files"]:
+        nested = [sub + "/" + f[0] for sub, names in (im.get("subdirs") or {}).items() for f in names]
+        for name in [f[0] for f in im["files"]] + nested:
             p = os.path.join(store, im["id"], name)
             if not os.path.exists(p):
                 s[name] = "missing"
@@ -361,6 +401,7 @@ def register_source():
 def one_history(case, faults, what0):
     """faults: list of (point, mode). Fresh working directory; faulty runs, then a clean one."""
     n_runs = 0
+    nested = any(im.get("subdirs") for im in case["images"])
     kind = case.get("store", "local")
     what0 = what0 + f"; store={kind}"
     with fresh_dir("c18-") as d:
@@ -371,7 +412,7 @@ def one_history(case, faults, what0):
                 os.unlink(log)
             what = f"{what0}; fault {mode} at {pt}"
             with toasty_call("publish", what):
-                res = run_publish(work, orders, pt, mode, log, kind)
+                res = run_publish(work, orders, pt, mode, log, kind, may_refuse=nested)
             n_runs += 1
             # with a store whose writes are not atomic, a SECOND faulty attempt can truncate a file that
             # sits next to the first attempt's index.wtml whatever publish does: only the first fault's
@@ -384,8 +425,12 @@ def one_history(case, faults, what0):
             os.unlink(log)
         what = f"{what0}; clean run after faults {[f[0] for f in faults]}"
         with toasty_call("publish", what):
-            res = run_publish(work, orders, None, "fail", log, kind)
+            res = run_publish(work, orders, None, "fail", log, kind, may_refuse=nested)
         n_runs += 1
+        if nested and res != "ok":
+            # an image with a sub-directory was refused: only the state of the store is judged
+            check_invariants(work, store, content, case, log, what)
+            return n_runs
         if res != "ok":
             raise Violation("rerun-completes", f"{what}: the clean re-run did not complete ({res})")
         state = check_invariants(work, store, content, case, log, what)
@@ -407,12 +452,25 @@ def exec_case(case):
     n = 0
     nontrivial_pts = 0
     for pt in pts:
-        for mode in (("fail",) if pt[1] == "source-missing" else ("fail", "crash")):
+        for mode in (("fail",) if pt[1] in ("source-missing", "fsize") else ("fail", "crash")):
             n += one_history(case, [(pt, mode)], what0)
         im = [i for i in case["images"] if i["id"] == pt[0]][0]
         names = [f[0] for f in im["files"]]
         if names[-1] != "index.wtml" and pt[2] is not None and pt[2] != names[-1]:
             nontrivial_pts += 1
+    # two faults in a row, enumerated: the first attempt gets everything into the store but fails just before the image is
+    # moved to published/; the second attempt fails while re-sending one of the other files
+    for im in case["images"]:
+        first = ([im["id"], "before-rename", None], "fail")
+        for name, size in im["files"]:
+            if name == "index.wtml":
+                continue
+            for kind in ("mid", "fsize", "store-rename-before"):
+                if kind == "fsize" and size < 2:
+                    continue
+                if kind == "store-rename-before" and case.get("store", "local") != "local":
+                    continue
+                n += one_history(case, [first, ([im["id"], kind, name], "fail")], what0)
     for seq in case["sequences"]:
         faults = [(pts[i % len(pts)], m) for i, m in seq]
         n += one_history(case, faults, what0)
@@ -424,6 +482,10 @@ def exec_case(case):
         cls.append("index-first" if k == 0 else ("index-last" if k == len(names) - 1 else "index-middle"))
     if any(f[1] == 0 for im in case["images"] for f in im["files"]):
         cls.append("empty-file")
+    if any(f[1] >= (1 << 20) for im in case["images"] for f in im["files"]):
+        cls.append("big-item")
+    if any(im.get("subdirs") for im in case["images"]):
+        cls.append("sub-directory")
     return Outcome(classes=sorted(set(cls)), nontrivial=nontrivial_pts > 0, count=n, info={"fault_points": len(pts), "runs": n})
 
 
@@ -440,7 +502,16 @@ def strat(draw, tier):
         pos = draw(st.integers(0, len(names)))
         names.insert(pos, "index.wtml")
         files = [[n, draw(st.sampled_from([0, 1, 17, 1000, 4096]))] for n in names]
-        images.append({"id": f"img{i}_{draw(st.integers(0, 9))}", "files": files})
+        if len(files) >= 2 and draw(st.integers(0, 5)) == 0:
+            # one big item (a base-layer mosaic): stores may treat large items differently
+            j = draw(st.integers(0, len(files) - 1))
+            if files[j][0] != "index.wtml":
+                files[j][1] = (1 << 20) + draw(st.sampled_from([0, 37, 4096]))
+        img = {"id": f"img{i}_{draw(st.integers(0, 9))}", "files": files}
+        if draw(st.integers(0, 6)) == 0:
+            img["subdirs"] = {"tiles": [[n, draw(st.sampled_from([1, 17, 1000]))] for n in draw(st.lists(st.sampled_from(["0_0.png", "1_0.png", "x.bin"]), min_size=1, max_size=2, unique=True))]}
+            img["subdir_at"] = draw(st.integers(0, 8))
+        images.append(img)
     seqs = draw(st.lists(st.lists(st.tuples(st.integers(0, 200), st.sampled_from(["fail", "crash"])), min_size=1, max_size=3), max_size=3))
     return {"images": images, "sequences": [[list(t) for t in s] for s in seqs], "store": draw(st.sampled_from(["local", "local", "nonatomic"]))}
 
